@@ -290,6 +290,14 @@ def l3_case(args):
             argv += ["--read_group", "tag:XI"]
         elif mode == "read_id":
             argv += ["--read_group", "read_id:_"]
+        elif mode in ("file3", "file5"):
+            # documented column options: file:FILE:READ_COL[:GROUP_COL[:DELIM]] (READ_COL 0, GROUP_COL 1, tab if not set)
+            tbl = os.path.join(d, "table.tsv")
+            with open(tbl, "w") as f:
+                for name, g in groups.items():
+                    if g != "NA":
+                        f.write(("x;%s;%s;y\n" % (g, name)) if mode == "file5" else ("junk\t%s\t%s\n" % (g, name)))
+            argv += ["--read_group", ("file:%s:2:1:;" % tbl) if mode == "file5" else ("file:%s:2" % tbl)]
         else:
             tbl = os.path.join(d, "table.tsv")
             with open(tbl, "w") as f:
@@ -448,8 +456,8 @@ def run(ctx):
                           {"reads": list(reads), "order": list(order), "format": fmt})
     jobs = []
     universes = {"tag": ["A1", "gB", "gC", "NA"], "read_id": ["A1", "gB", "gC", "NA"], "file": ["A1", "gB", "gC", "NA"], "file_name": ["L1", "L2"],
-                 "tagint": ["12", "3", "7", "NA"]}
-    for mode in ("tag", "tagint", "read_id", "file", "file_name"):
+                 "tagint": ["12", "3", "7", "NA"], "file3": ["A1", "gB", "gC", "NA"], "file5": ["A1", "gB", "gC", "NA"]}
+    for mode in ("tag", "tagint", "read_id", "file", "file3", "file5", "file_name"):
         for fmt in ("both",) if quick else ("matrix", "linear", "both"):
             orders = list(itertools.permutations(universes[mode]))
             if quick:
